@@ -80,6 +80,22 @@ class Env:
     def admit(self, p):
         op, a = p[0], p[1:]
         i = lambda k: int(a[k])
+        # a cursor of length exactly SIZE_MAX>>1 (F8 regression) may be served or refused by advance/read: only calls that
+        # touch at most its single valid byte whichever way they decide
+        halfs = [c for c in range(1, NC + 1) if self.big[c] == HALF and self.usable[c]]
+        if halfs and op not in ("CURNULL", "CURSRC", "CURBUF", "CURBIG", "INIT", "CLEAN", "WU8", "APPENDBYTE"):
+            cargs = {"CADV": [0], "READ": [0], "READU": [0], "APPEND": [1], "WCUR": [1], "APPENDUPD": [1], "CURCOPY": [1]}
+            used = [int(x) for x in a if x.isdigit() and 1 <= int(x) <= NC]
+            if op not in cargs:
+                if any(c in halfs for c in used):
+                    return False
+            else:
+                c = int(a[cargs[op][0]])
+                if c in halfs:
+                    if op in ("CADV", "READ") and not (untok(a[1]) <= 1 or untok(a[1]) > HALF):
+                        return False
+                    if op == "READU" and i(1) != 1:
+                        return False
         if op == "INIT":
             return not self.alive[i(0)] and untok(a[1]) <= 4096
         if op == "INITCOPY":
@@ -122,7 +138,7 @@ class Env:
         if op == "CURSRC":
             return i(1) + i(2) <= self.nsrc
         if op == "CURBIG":
-            return untok(a[1]) > HALF
+            return untok(a[1]) >= HALF
         if op == "CURCOPY":
             return i(0) != i(1) and self.usable[i(1)]
         if op == "CADV":
@@ -248,6 +264,10 @@ class Env:
             c, n, d = i(0), untok(a[1]), i(3)
             if self.big[c] or n > 4096:
                 self.setcur(d, (), 0, 0)
+                if self.big[c] == HALF and n <= 4096:
+                    self.usable[c] = False          # may have been served: its length is no longer known to be huge
+                    if d:
+                        self.usable[d] = False
                 return
             self.clo[c] = max(0, self.clo[c] - n)
             if n <= self.clen[c]:
@@ -258,6 +278,8 @@ class Env:
         elif op in ("READ", "READU"):
             c, n = i(0), untok(a[1])
             if self.big[c] or n > 4096:
+                if self.big[c] == HALF and n <= 4096:
+                    self.usable[c] = False
                 return
             self.clo[c] = max(0, self.clo[c] - n)
             if n <= self.clen[c]:
@@ -318,6 +340,14 @@ NUMS = ["18446744073709551615", "18446744073709551616", "18446744073709551614", 
 CAPS = [0, 0, 1, 1, 2, 3, 4, 5, 7, 8, 9, 15, 16, 17, 31, 32, 33, 63, 64]
 BIGS = [HALF - 1, HALF, HALF + 1, MAXS - 2, MAXS - 1, MAXS]
 BIGC = [HALF + 1, HALF + 2, MAXS - 1, MAXS]
+KNOWN_DIR = os.path.join(os.path.dirname(os.path.dirname(os.path.abspath(__file__))), "spec", SPEC_DIR, "known")
+
+
+def load_script(name):
+    """a stored regression script (spec/ByteBuf/known/): one execution, passed through the same precondition filter"""
+    ls = [ln.strip() for ln in open(os.path.join(KNOWN_DIR, name)) if ln.strip() and not ln.startswith("#")]
+    nsrc = int(ls[0].split()[1])
+    return [ls[0]] + sanitize(ls[1:], nsrc)
 
 
 def make_src(rng):
@@ -507,6 +537,13 @@ def random_exec(rng, nops):
                 while env.lenlo[lb] < 3 and env.alive[lb] and rng.random() < 0.9:
                     emit("APPENDBYTE %d %d %d" % (lb, rng.randrange(256), rng.randint(0, 1)))
                 emit("RESERVE %d %d %s" % (rng.choice([1, 3]), lb, tok(rng.choice([MAXS, MAXS - 1, MAXS - 2]))))
+            elif k < 0.68:    # length exactly SIZE_MAX>>1 (F8): served or refused, never clobbered
+                c = Cc()
+                emit("CURBIG %d HALF" % c)
+                emit(rng.choice(["CADV %d %d 1 0" % (c, rng.randint(0, 1)), "CADV %d %d 0 0" % (c, rng.randint(0, 1)),
+                                 "READ %d 1" % c, "READU %d 1" % c, "APPEND %d %d" % (b, c), "WCUR %d %d" % (b, c),
+                                 "CADV %d %s %d 0" % (c, big, rng.randint(0, 1))]))
+                emit("CURNULL %d" % c)
             else:
                 c = Cc()
                 emit("CURBIG %d %s" % (c, tok(rng.choice(BIGC))))
@@ -634,6 +671,34 @@ def run_mc(ctx, thorough):
            required_actions=["ByteBufMC!" + a for a in MC_REQUIRED + MC_PURE])
 
 
+def known_probe(ctx, ex, rec):
+    """DESIGN 3.3: strict first; if rejected, re-validate with exactly the deviation of the known record enabled."""
+    exe = prepare(ctx)
+    wd = os.path.join(ctx.outdir, "known_f8")
+    sp, tp, evs, died, err = pipeline.run_harness(exe, list(ex) + ["END"], wd, "f8")
+    if died:
+        pipeline.confirm_and_report(ctx, exe, ex, SPEC_DIR, "ByteBufTrace", "Trace.cfg", "known_f8", "died: " + died, None, None,
+                                    None, 300, 900, "END", asan_text=err)
+        return
+    clean = os.path.join(wd, "f8.clean.ndjson")
+    pipeline.write_clean_trace(evs, clean)
+    v = tlc.validate(SPEC_DIR, "ByteBufTrace", "Trace.cfg", clean, wd, tag="f8_strict")
+    if v.error:
+        raise pipeline.CheckError(v.error)
+    if v.accepted:
+        ctx.traces_ok += 1
+        return
+    v2 = tlc.validate(SPEC_DIR, "ByteBufTrace", "TraceLenient.cfg", clean, wd, tag="f8_lenient")
+    if v2.error:
+        raise pipeline.CheckError(v2.error)
+    if v2.accepted and any("NospecHalfClobber" in x for x in v2.printed):
+        ctx.known_finding("F8", rec.get("what", "advance_nospec clobbers a cursor of length SIZE_MAX>>1"))
+        ctx.traces_ok += 1
+    else:
+        pipeline.confirm_and_report(ctx, exe, ex, SPEC_DIR, "ByteBufTrace", "Trace.cfg", "known_f8",
+                                    "known-finding repro rejected beyond the recorded deviation", None, None, None, 300, 900, "END")
+
+
 def gen_and_drive(ctx, thorough):
     scripts, _ = tlc.gen_scripts(SPEC_DIR, "ByteBufMC", "Gen.cfg", ctx.outdir, num=500 if not thorough else 6000, depth=40,
                                  seed=ctx.seed, workers=4)
@@ -657,6 +722,14 @@ def gen_and_drive(ctx, thorough):
     for _ in range(npar):
         execs.append(parse_exec(rng))
     ctx.extra["random_scripts"] = nrand + npar
+    # regression script of the repaired finding F8: part of the regular executions, judged by the strict specification.
+    # Only a known_findings.txt record with status "known" and id F8 routes its rejection to KNOWN-FINDING.
+    f8 = load_script("nospec_half.script")
+    f8_known = [k for k in ctx.known if k.get("status") == "known" and k.get("id") == "F8"]
+    if f8_known:
+        known_probe(ctx, f8, f8_known[0])
+    else:
+        execs.append(f8)
     mustfail = ("MAX", "HALF", "CURBIG")
     for ex in execs:
         ctx.evaluations += 1
